@@ -21,7 +21,7 @@ def gen(tier, rng, shard, nshards):
                "rhs": S.pick(rng, ["generic", "generic", "eigvec", "few-eigvecs"]), "x0": "none",
                "start": S.pick(rng, ["given", "given", "given", "default", "batched"]),
                "m": S.pick(rng, ["1", "2", "n//2", "n-1", "n", "n+3", "n+10", "default"]),
-               "tol": float(S.pick(rng, [1e-12, 1e-12, 1e-8, 1e-5])), "fn": S.pick(rng, ["arnoldi", "arnoldi", "arnoldi", "arnoldi_eigs", "Arnoldi()"]),
+               "tol": float(S.pick(rng, [1e-12, 1e-12, 1e-8, 1e-5, 0.0])), "fn": S.pick(rng, ["arnoldi", "arnoldi", "arnoldi", "arnoldi_eigs", "Arnoldi()"]),
                "real_start": bool(rng.random() < 0.3), "wide_start": bool(rng.random() < 0.25), "opscale": float(S.pick(rng, [1.0, 1.0, 1.0, 1e-9, 1e9])),
                "vscale": float(S.pick(rng, [1.0, 1.0, 1.0, 1e-12, 1e-30, 1e-9, 1e15]))}
 
@@ -137,6 +137,27 @@ def run_kernel(ctx, case):
     ctx.check("zero-after-the-steps-run", bool(rest == 0), site="arnoldi", preds=preds, detail={"max_abs": float(rest)})
 
 
+def later_call(ctx, case, A, kw, results, preds):
+    """What a call returned is the caller's: a *later* call of the same routine with arguments of the same shapes and dtypes
+    (another operator, another start vector) leaves the earlier factorisation alone.  The results are hashed, the later call
+    is made, the hashes are verified (write sanitizer) -- all before the factorisation is judged."""
+    from cola.linalg.decompositions.arnoldi import arnoldi
+    if case["seed"] % 2:
+        return
+    ctx.retain(*results, label="arnoldi-factorisation")
+    M2 = np.asarray(A.to_dense())
+    A2 = cola.ops.Dense((M2.T + np.eye(M2.shape[0])).astype(M2.dtype))
+    kw2 = dict(kw)
+    if "start_vector" in kw2:
+        kw2["start_vector"] = (np.asarray(kw2["start_vector"])[::-1] * 2).copy()
+    kw2.pop("key", None)
+    if "start_vector" not in kw2:
+        kw2["key"] = 9
+    ctx.call(arnoldi, A2, **kw2)
+    ctx.verify_guards(site="later-call-of-the-same-shapes")
+    ctx.count("later_call", "same-shapes")
+
+
 def run_case(ctx, case):
     if case.get("kernel"):
         return run_kernel(ctx, case)
@@ -213,7 +234,9 @@ def run_case(ctx, case):
         okz = Vd.shape == (n, len(vals)) and np.linalg.norm(Vd, axis=0).min(initial=1.0) > 1e-8 and (np.abs(vals).min() if len(vals) else np.inf) > 1e-8 * normM
         ctx.check("no-eigenpairs-from-padding", bool(okz), site="arnoldi_eigs", preds=preds,
                   detail={"values": vals, "m": m_used, "n": n, "min_vector_norm": float(np.linalg.norm(Vd, axis=0).min(initial=1.0)) if Vd.ndim == 2 else None})
-        if degree is not None and degree < n and m_used > degree and case["tol"] <= 1e-8 and len(vals) <= degree + 1:
+        # (with tol = 0 a breakdown that is only numerical -- a residual of 1e-16, not an exact zero -- cannot be detected: the
+        # routine rightly goes on, and the extra Ritz value is a Rayleigh quotient of rounding noise.  Regime: 1e-13 <= tol.)
+        if degree is not None and degree < n and m_used > degree and 1e-13 <= case["tol"] <= 1e-8 and len(vals) <= degree + 1:
             # the breakdown was detected (fewer values than steps asked): the Krylov space is invariant, so every returned
             # value is an eigenvalue of A, each used once
             ref = list(np.linalg.eigvals(M.astype(complex)))
@@ -245,6 +268,7 @@ def run_case(ctx, case):
     ctx.check("returns", True)
     Qop, Hop, info = out
     Qd, Hd = np.asarray(Qop.to_dense()), np.asarray(Hop.to_dense())
+    later_call(ctx, case, A, kw, (Qop, Hop, Qd, Hd), preds)
     if case["start"] != "batched":
         judge_one(ctx, case, M, v, Qd, Hd, m_used, degree, preds)
         if m_req is not None and m_req > n:  # same factorisation as n steps
